@@ -54,7 +54,7 @@ def generate(tier, seed):
             for key, l in (("p", p), ("g", g), ("p2", p2), ("g2", g2)):
                 if i < len(l):
                     lines.append([key] + l[i])
-        for fp, fg in rnd.sample(combos, 40 if tier == "quick" else 400):
+        for fp, fg in rnd.sample(combos, 40 if tier == "quick" else min(len(combos), 1500)):
             text = policy_text(rnd, lines)
             ad = adapter_T(text) if rnd.random() < 0.5 else adapter_Ft(text)
             steps = ["?ga:p", "?ga:g", "?if", "LF:%s:%s" % (enc_rule(fp), enc_rule(fg)), "?ga:p", "?ga:g", "?if", "LD", "?ga:p", "?ga:g", "?if"]
